@@ -271,6 +271,17 @@ class SSHForwardListener(SSHListener):
         self._servers = []
 
 
+def _check_conn_open(conn: 'SSHConnection',
+                     servers: Sequence[asyncio.AbstractServer]) -> None:
+    """Don't leave a listener behind on a connection closed meanwhile"""
+
+    if conn.is_closed():
+        for server in servers:
+            server.close()
+
+        raise OSError(errno.ENOTCONN, 'SSH connection closed')
+
+
 async def create_tcp_local_listener(
         conn: 'SSHConnection', loop: asyncio.AbstractEventLoop,
         protocol_factory: _LocalListenerFactory, listen_host: str,
@@ -338,6 +349,9 @@ async def create_tcp_local_listener(
         server = await loop.create_server(protocol_factory, sock=sock)
         servers.append(server)
 
+    # The connection may have been closed while the sockets were set up
+    _check_conn_open(conn, servers)
+
     listen_key = listen_host or '', listen_port
     return SSHForwardListener(conn, servers, listen_key, listen_port)
 
@@ -371,6 +385,9 @@ async def create_unix_forward_listener(conn: 'SSHConnection',
         return SSHLocalPathForwarder(conn, coro)
 
     server = await loop.create_unix_server(protocol_factory, listen_path)
+
+    # The connection may have been closed while the socket was set up
+    _check_conn_open(conn, [server])
 
     return SSHForwardListener(conn, [server], listen_path)
 
